@@ -553,6 +553,10 @@ def generate_all(base_build_dir):
         out["failures"] += r["failures"]
     except TranslationError as e:
         out["failures"].append("translator: %s" % e)
+    import translate_params
+    pr = translate_params.generate(base_build_dir)
+    out["param_obligations"] = pr["obligations"]
+    out["param_failures"] = pr["failures"]
     return out
 
 
